@@ -69,14 +69,26 @@ func (r TypeInfoExpr) String() string {
 	return r.Type.String()
 }
 
+// importAsWritten registers the packages a type expression of the source refers to under the names the
+// source uses. It reports false if one of the names already belongs to another package in the file being
+// written (then the expression can not be copied as it is written).
+func importAsWritten(w genfp.ImportSet, iset []genfp.ImportPackage) bool {
+	ok := true
+	for _, v := range iset {
+		if !w.AddImport(v) && w.GetImportedName(v) != v.Alias() {
+			ok = false
+		}
+	}
+	return ok
+}
+
 func (r TypeInfoExpr) TypeName(w genfp.ImportSet, wp genfp.WorkingPackage) string {
 
 	if expr, ok := r.Expr.Unapply(); ok {
 		_, iset := wp.EvalTypeExpr(expr)
-		for _, v := range iset {
-			w.AddImport(v)
+		if importAsWritten(w, iset) {
+			return types.ExprString(expr)
 		}
-		return types.ExprString(expr)
 	}
 
 	return w.TypeName(wp, r.Type.Type)
@@ -967,10 +979,9 @@ func (r StructField) TypeName(w genfp.ImportSet, wp genfp.WorkingPackage) string
 
 	if expr, ok := wp.FindNode(r.Pos).(*ast.Field); ok {
 		_, iset := wp.EvalTypeExpr(expr.Type)
-		for _, v := range iset {
-			w.AddImport(v)
+		if importAsWritten(w, iset) {
+			return types.ExprString(expr.Type)
 		}
-		return types.ExprString(expr.Type)
 	}
 
 	return w.TypeName(wp, r.FieldType.Type)
